@@ -8,6 +8,7 @@ func init() {
 		Explanation: "Decides: R1 the method summary is rebuilt after every change of a handler map's key set; R2 the automatic OPTIONS/405 handlers are stored on, and stay with, the node object they were built for (a handler map never moves to another node object); R3 every summary is computed by a summary builder (TRACE clause under hasTrace, memo entry rendered) or is followed by one; R4 every removing entry point updates the tree-wide summary, and decrements come from keys actually removed; R5 summary/rendering conformance (one bit per method, builder ranges over all keys, renderer keeps exactly the set bits, Allow/Methods()/Routes() read one memo entry). " +
 			"R16 every method of the table except the automatic entries, named in Remove's list, reaches the deletion of its entry. " +
 			"R18 (= C01.R21) a rule with '{' is refused (two nodes for one pattern otherwise). " +
+			"R19 (= C03.R20) installs are counted with the registered list. " +
 			"Not decided: the arithmetic of the tree-wide counters for arbitrary histories.",
 		Assumptions: commonAssumptions,
 		Run: func(c *Ctx) {
@@ -38,7 +39,7 @@ func init() {
 	register(&Spec{
 		ID: "C17",
 		Explanation: "Decides: R1 validate-before-mutate — no change of a handler map's key set, of a method summary or of the tree-wide counters reaches an error return of Tree.Add (interprocedural through its static callees); R2 the duplicate test dominates every install of a caller-supplied method (for the installed value, or for every element of the list in a two-pass form); R3 the error of Tree.Add is never dropped by its callers. " +
-			"R6 the segment-level ambiguity verdict is false whenever the two segments differ in kind, constraint, suffix or end flag (symbolic evaluation, one field at a time). Not decided: that every pair identical up to names is found ambiguous (the ambiguousLength arithmetic and the split positions).",
+			"R6 the segment-level ambiguity verdict is false whenever the two segments differ in kind, constraint, suffix or end flag (symbolic evaluation, one field at a time). Not decided: that every pair identical up to names is found ambiguous (the ambiguousLength arithmetic and the split positions). R15 (= C02.R21) the split point of two segment texts, for all pairs of texts.",
 		Assumptions: commonAssumptions,
 		Run: func(c *Ctx) {
 			ruleValidateBeforeMutate(c, "R1")
@@ -58,6 +59,7 @@ func init() {
 			ruleParameterNamesAreRemembered(c, "R12")
 			ruleNameCleaned(c, "R13")
 			ruleStrippedNameIsNotEmpty(c, "R14")
+			ruleSplitPointAutomaton(c, "R15")
 		},
 	})
 	register(&Spec{
